@@ -237,7 +237,7 @@ fn c15_invalid(c: &mut Ctx) {
 pub fn c15(ctx: &mut Ctx, layer: &str) {
     let thorough = ctx.thorough && !matches!(layer, "miri" | "vg" | "asan");
     if layer == "miri" {
-        let mut r = Rng::new(ctx.seed);
+        let mut r = Rng::new(ctx.seed ^ (wl::shard().0 as u64 + 1).wrapping_mul(7919));
         for _ in 0..40 {
             let v = match r.below(4) {
                 0 => r.below(300) as u32,
@@ -728,13 +728,13 @@ fn c13_levels(c: &mut Ctx) {
 
 pub fn c13(ctx: &mut Ctx, layer: &str) {
     let g1: usize = match layer {
-        "miri" => 3,
+        "miri" => if ctx.thorough { 500 } else { 40 },
         "vg" => 200,
         _ => {
             if ctx.thorough {
                 1_000_000
             } else {
-                10_000
+                150_000
             }
         }
     };
